@@ -262,6 +262,7 @@ theorem obs_offerLive {O : Oracle} {c : Conf} {s : State} {op : Op} (hpos : 0 < 
   | rmStatic => rfl
   | sleep => rfl
   | restart => rfl
+  | reorder => rfl
 
 /-- The model meets every clause about addresses and clients, on its own observations. -/
 theorem specCore_step {O : Oracle} {c : Conf} {s : State} {op : Op} (hc : validate c = true) (hpos : 0 < c.start)
@@ -304,9 +305,10 @@ theorem obs_diskMirror_of_stores {c : Conf} {p : State × Reply} (h : Stores p) 
   exact h1
 
 /-- No step other than a restart makes the file differ from the table. -/
-theorem obs_disk_step {O : Oracle} {c : Conf} {s : State} {op : Op} (h : Inv c s) (hne : op ≠ .restart) :
+theorem obs_disk_step {O : Oracle} {c : Conf} {s : State} {op : Op} (h : Inv c s) (hne : op ≠ .restart)
+    (hnr : ∀ d, op ≠ .reorder d) :
     (diskMirror (obsOf c s) && !diskMirror (obsOf c (step O c s op).1)) = false := by
-  rcases step_store_or_same (O := O) h hne with hs | ⟨h1, h2⟩
+  rcases step_store_or_same (O := O) h hne hnr with hs | ⟨h1, h2⟩
   · rw [obs_diskMirror_of_stores hs]; simp
   · have : diskMirror (obsOf c (step O c s op).1) = diskMirror (obsOf c s) := by
       unfold diskMirror obsOf
